@@ -62,7 +62,10 @@ def include_chains(files, target, root="root.jst"):
 
 
 FAULTS = ['TYPE @t\n{"dup": 1}', "TAG @tg", "ENUM @e\n[3]", "SERVER @s0", "GET /m0", "Body any", "Title \"x\"",
-          "PASTE @nomacro", "URL /u0", "200 any", "TYPE @bad\n{\"a\": @undefined}", "Tags @notag"]
+          "PASTE @nomacro", "URL /u0", "200 any", "TYPE @bad\n{\"a\": @undefined}", "Tags @notag",
+          # non-ASCII text in front of the offending position, on the same line
+          'TYPE @u8\n{"\u043a\u043b\u044e\u0447": @undefined8}', 'TYPE @cjk\n{"\u6f22\u5b57": 1, "a": @undefined9}',
+          'URL "/caf\u00e9" /second', 'TYPE @u9\n{"\u00fc": 1, "\u00fc": 2}', 'GET /\u00e9 "x y" z']
 
 
 def matches_finding(v, f):
